@@ -371,13 +371,15 @@ pub fn check_c07(prog: &NetProgram, res: &NetResult, info: &mut RunInfo) {
         while busy_until.is_some() {
             unbusy(&mut busy_until, &mut queue, &mut acc, &mut deliver);
         }
-        // compare with what the receiver saw
+        // compare with what the receiver saw (a receiver that is shut down at some point ignores deliveries: that is
+        // C09's subject; the channel-side accounting above is still checked)
+        let receiver_goes_down = res.trace.iter().any(|r| r.m as usize == receiver && matches!(r.ev, Ev::ShutdownReq { .. }));
         let end_time = res.ok.map_or(u64::MAX, |o| o.0);
         let mut last_seq: Option<u32> = None;
         for (uid, lo, hi) in &deliver {
             let arr = arrivals.get(uid).cloned().unwrap_or_default();
             if arr.is_empty() {
-                if limit_stopped && *hi >= end_time {
+                if (limit_stopped && *hi >= end_time) || receiver_goes_down {
                     continue;
                 }
                 info.violate(Violation::new("C07", "lost", format!(
@@ -1187,10 +1189,12 @@ pub fn check_c09(prog: &NetProgram, res: &NetResult, info: &mut RunInfo) {
         return;
     }
     if res.ok.is_none() {
-        if res.started && !res.errors.iter().all(|(k, _)| k == "join-not-finished") {
+        // expected errors: unfinished joined tasks, and the panic of a module whose reset() is scripted to panic
+        let expected = |k: &str, p: &str| k == "join-not-finished" || (k == "panic" && prog.modules.iter().enumerate().any(|(m, sp)| sp.reset_panics && module_path(prog, m) == p));
+        if res.started && !res.errors.iter().all(|(k, p)| expected(k, p)) {
             info.violate(Violation::new("C09", "run-error", format!("run without panics returned errors {:?}", res.errors)));
         }
-        if res.errors.iter().any(|(k, _)| k != "join-not-finished") {
+        if !res.errors.iter().all(|(k, p)| expected(k, p)) {
             return;
         }
     }
